@@ -39,6 +39,8 @@ import (
 	ethtypes "github.com/ethereum/go-ethereum/core/types"
 	"github.com/ethereum/go-ethereum/crypto"
 	"google.golang.org/grpc"
+	"google.golang.org/grpc/codes"
+	treetypes "github.com/agglayer/aggkit/tree/types"
 )
 
 func init() { scenarios["aggsender"] = Scenario{Gen: asGen, Replay: asReplay} }
@@ -196,6 +198,47 @@ type asLER struct{ ler common.Hash }
 
 func (l asLER) GetLastLocalExitRoot() (common.Hash, error) { return l.ler, nil }
 
+// aggchain prover: proves the requested range, or a prefix of it, or fails, as scripted
+type asProver struct{ w *asWorld }
+
+func (p *asProver) GenerateAggchainProof(ctx context.Context, req *aggsendertypes.AggchainProofRequest) (*aggsendertypes.AggchainProof, error) {
+	mode := p.w.prover
+	p.w.prover = ""
+	switch {
+	case mode == "fail":
+		return nil, errors.New("verif: prover unavailable")
+	case mode == "notyet":
+		return nil, &aggkitgrpc.GRPCError{Code: codes.Unavailable, Message: "Proposer service has not built any proof yet"}
+	}
+	end := req.RequestedEndBlock
+	if strings.HasPrefix(mode, "cut:") {
+		k := bigOf(mode[4:]).Uint64()
+		if k > end {
+			end = 0
+		} else {
+			end -= k
+		}
+	}
+	p.w.nProofs++
+	g := NewRng(uint64(p.w.nProofs) + 4242)
+	return &aggsendertypes.AggchainProof{LastProvenBlock: req.LastProvenBlock, EndBlock: end, CustomChainData: g.Bytes(8),
+		AggchainParams: common.BytesToHash(g.Bytes(32)), Context: map[string][]byte{"k": g.Bytes(4)},
+		SP1StarkProof: &aggsendertypes.SP1StarkProof{Version: "v1", Proof: g.Bytes(16), Vkey: g.Bytes(8)}}, nil
+}
+func (p *asProver) GenerateOptimisticAggchainProof(req *aggsendertypes.AggchainProofRequest, sig []byte) (*aggsendertypes.AggchainProof, error) {
+	return nil, errors.New("verif: not used")
+}
+
+type asGER struct{}
+
+func (asGER) GetInjectedGERsProofs(ctx context.Context, root *treetypes.Root, from, to uint64) (map[common.Hash]*agglayertypes.ProvenInsertedGERWithBlockNumber, error) {
+	return map[common.Hash]*agglayertypes.ProvenInsertedGERWithBlockNumber{}, nil
+}
+
+type asOptimistic struct{}
+
+func (asOptimistic) IsOptimisticModeOn() (bool, error) { return false, nil }
+
 // L1 client: only HeaderByNumber is used (by the L1 info tree data querier)
 type asL1Client struct {
 	aggkittypes.BaseEthereumClienter
@@ -278,6 +321,9 @@ type asWorld struct {
 	lines []string
 	// configuration
 	retry   bool
+	fep     bool   // aggchain-prover flow instead of the PP flow
+	prover  string // behaviour of the next prover call: "" (proves the whole range), "fail", "notyet", "cut:<k>"
+	nProofs int
 	start   uint64
 	maxSize uint64
 	hist    bool
@@ -436,14 +482,18 @@ func (w *asWorld) buildNode() {
 	l2q := query.NewBridgeDataQuerier(lg(), w.l2.Facade(asNet), time.Millisecond)
 	l1q := query.NewL1InfoTreeDataQuerier(asL1Client{w: w}, w.l1.Facade())
 	base := flows.NewBaseFlow(lg(), l2q, st, l1q, asLER{}, flows.NewBaseFlowConfig(uint(w.maxSize), w.start, false))
-	pp := flows.NewPPFlow(lg(), base, st, l1q, l2q, w.signer, false, 0)
+	var flow aggsendertypes.AggsenderFlow = flows.NewPPFlow(lg(), base, st, l1q, l2q, w.signer, false, 0)
+	if w.fep {
+		flow = flows.NewAggchainProverFlow(lg(), flows.NewAggchainProverFlowConfigDefault(), base, &asProver{w: w}, st, l1q, l2q,
+			asGER{}, nil, w.signer, asOptimistic{}, nil)
+	}
 	cfg := aggsendercfg.Config{
 		MaxRetriesStoreCertificate: 3,
 		DelayBetweenRetries:        cfgtypes.NewDuration(0),
 		RetryCertAfterInError:      w.retry,
 		KeepCertificatesHistory:    w.hist,
 	}
-	w.node = aggsender.VerifNew(lg(), cfg, st, client, w.epoch, pp, asNet)
+	w.node = aggsender.VerifNew(lg(), cfg, st, client, w.epoch, flow, asNet)
 }
 
 // restart: what Start does before the loop; "refused" when the initial reconciliation reports an error
@@ -634,11 +684,15 @@ func (w *asWorld) exec(line string) string {
 	u := func(s string) uint64 { return bigOf(s).Uint64() }
 	ctx := context.Background()
 	switch ws[0] {
-	case "new": // new <retry> <start> <maxsize> <hist> <omitprev>
+	case "new": // new <retry> <start> <maxsize> <hist> <omitprev> [<fep>]
 		w.reset(w.r)
 		w.lines = []string{line}
 		w.retry, w.start, w.maxSize, w.hist = ws[1] == "1", u(ws[2]), u(ws[3]), ws[4] == "1"
 		w.agg.omitPrev = ws[5] == "1"
+		w.fep = len(ws) > 6 && ws[6] == "1"
+		return "ok"
+	case "prover": // prover fail | notyet | cut <k>: what the next call to the aggchain prover does
+		w.prover = strings.Join(ws[1:], ":")
 		return "ok"
 	case "l1blk": // l1blk <num> <nleaves>
 		bn, n := u(ws[1]), int(u(ws[2]))
